@@ -13,6 +13,7 @@ use vcommon::*;
 
 mod allocmon;
 mod c34;
+mod c34mal;
 mod c38;
 mod child;
 mod pbmut;
